@@ -201,4 +201,36 @@ PLAN = {
             {"name": "exporter", "flavour": "native", "shards": 4, "shards_thorough": 16},
         ],
     },
+    "C07": {
+        "level": "exploration",
+        "rule": "seq leg: per case a builder configuration (global / per-class bucket overrides, 0-2 global labels, unit suffix on/off, "
+                "quantile sets) + 1-7 metrics honouring the distinctness precondition (sanitised names, label names, not le/quantile; "
+                "key labels overriding global ones by raw name) + a history of 5-80 register/update (incl. absolute, inc/dec/set with "
+                "NaN/inf/-0/denormals, 1-70 histogram samples) / describe (every Unit) / run_upkeep / render steps; every render is "
+                "parsed by the strict parser and compared with the model (values, buckets, labels, HELP, type, no extra family, "
+                "idempotence). concurrent legs: 2-7 recorder threads vs 1-2 render/upkeep threads, interval bounds per render + exact "
+                "equality at quiescence; one leg adds random holds at the bucket hook points. distinct = case hash.",
+        "assumptions": ["label values / descriptions containing backslashes are not required to round-trip (escaper treats them as possibly pre-escaped); judged only by C08",
+                        "histogram sums judged on dyadic samples (exact)"],
+        "legs": [
+            {"name": "seq", "flavour": "native", "shards": 4, "shards_thorough": 16},
+            {"name": "concurrent", "flavour": "native", "shards": 4, "shards_thorough": 16},
+            {"name": "concurrent-hooks", "flavour": "native", "shards": 2, "shards_thorough": 8, "scale": 0.5},
+            {"name": "directed", "flavour": "native", "shards": 2, "shards_thorough": 8},
+            {"name": "asan", "flavour": "asan", "shards": 2, "shards_thorough": 8, "thorough_only": True},
+        ],
+    },
+    "C08": {
+        "level": "exploration",
+        "rule": "hostile leg: the C07 generator with names, label names, label values, descriptions, matcher patterns and global labels "
+                "drawn from a hostile alphabet (backslash runs, quotes, newlines, CR, tabs, NUL/DEL, U+2028, '{},=#:', leading digits, "
+                "reserved names, complete fake sample / TYPE lines), every Unit, unit suffix on/off, histogram and summary; every render "
+                "must parse under the strict line grammar, satisfy the family rules (one TYPE per family before its samples, every "
+                "sample = family name + suffix its type allows, le/quantile placement, no duplicate label names) and contain exactly the "
+                "model's families and label-name sets (injection probe). distinct = case hash.",
+        "assumptions": ["strict parser written from the exposition-format specification (Go ParseFloat number syntax); shares no code with the repository"],
+        "legs": [
+            {"name": "hostile", "flavour": "native", "shards": 4, "shards_thorough": 16},
+        ],
+    },
 }
